@@ -1754,63 +1754,82 @@ func checkHyphenTestUnguarded(c *Ctx, p *core.Prog) {
 		return
 	}
 	n := 0
-	for _, b := range ts.Blocks {
-		for _, in := range b.Instrs {
-			bo, ok := in.(*ssa.BinOp)
-			if !ok || (bo.Op != token.EQL && bo.Op != token.NEQ) {
-				continue
+	// the tokenizer and the small predicates it is split into (functions of the package that it calls directly)
+	fset := []*ssa.Function{ts}
+	for _, call := range core.CallsIn(ts) {
+		if g := call.Common().StaticCallee(); g != nil && core.FuncPkgPath(g) == v2pkg && len(g.Blocks) > 0 && g.Signature.Results().Len() == 1 && isBool(g.Signature.Results().At(0).Type()) {
+			fset = append(fset, g)
+			for _, c2 := range core.CallsIn(g) {
+				if g2 := c2.Common().StaticCallee(); g2 != nil && core.FuncPkgPath(g2) == v2pkg && len(g2.Blocks) > 0 && g2.Signature.Results().Len() == 1 && isBool(g2.Signature.Results().At(0).Type()) {
+					fset = append(fset, g2)
+				}
 			}
-			if k, isK := core.ConstInt(bo.Y); !isK || k != '-' {
-				continue
-			}
-			ld, ok := bo.X.(*ssa.UnOp)
-			if !ok {
-				continue
-			}
-			ia, ok := ld.X.(*ssa.IndexAddr)
-			if !ok {
-				continue
-			}
-			if base, d, okL := lenMinusOf(ia.Index); !okL || d != 1 || !sameSliceBase(base, ia.X) {
-				continue
-			}
-			n++
-			bad := ""
-			for _, f := range core.FactsAt(b) {
-				cmp, okC := f.AsCmp()
-				if !okC {
+		}
+	}
+	seenFn := map[*ssa.Function]bool{}
+	for _, hf := range fset {
+		if seenFn[hf] {
+			continue
+		}
+		seenFn[hf] = true
+		for _, b := range hf.Blocks {
+			for _, in := range b.Instrs {
+				bo, ok := in.(*ssa.BinOp)
+				if !ok || (bo.Op != token.EQL && bo.Op != token.NEQ) {
 					continue
 				}
-				lc, isCall := cmp.X.(*ssa.Call)
-				if !isCall {
+				if k, isK := core.ConstInt(bo.Y); !isK || k != '-' {
 					continue
 				}
-				bi, isB := lc.Call.Value.(*ssa.Builtin)
-				if !isB || bi.Name() != "len" || !sameSliceBase(lc.Call.Args[0], ia.X) {
+				ld, ok := bo.X.(*ssa.UnOp)
+				if !ok {
 					continue
 				}
-				k, isK := core.ConstInt(cmp.Y)
-				if !isK {
+				ia, ok := ld.X.(*ssa.IndexAddr)
+				if !ok {
 					continue
 				}
-				// what the fact says about the least length: > k means >= k+1, >= k means >= k, != 0 means >= 1
-				least := int64(0)
-				switch cmp.Op {
-				case token.GTR:
-					least = k + 1
-				case token.GEQ:
-					least = k
-				case token.NEQ:
-					if k == 0 {
-						least = 1
+				if base, d, okL := lenMinusOf(ia.Index); !okL || d != 1 || !sameSliceBase(base, ia.X) {
+					continue
+				}
+				n++
+				bad := ""
+				for _, f := range core.FactsAt(b) {
+					cmp, okC := f.AsCmp()
+					if !okC {
+						continue
+					}
+					lc, isCall := cmp.X.(*ssa.Call)
+					if !isCall {
+						continue
+					}
+					bi, isB := lc.Call.Value.(*ssa.Builtin)
+					if !isB || bi.Name() != "len" || !sameSliceBase(lc.Call.Args[0], ia.X) {
+						continue
+					}
+					k, isK := core.ConstInt(cmp.Y)
+					if !isK {
+						continue
+					}
+					// what the fact says about the least length: > k means >= k+1, >= k means >= k, != 0 means >= 1
+					least := int64(0)
+					switch cmp.Op {
+					case token.GTR:
+						least = k + 1
+					case token.GEQ:
+						least = k
+					case token.NEQ:
+						if k == 0 {
+							least = 1
+						}
+					}
+					if least > 1 {
+						bad = fmt.Sprintf("len(buffer) >= %d", least)
 					}
 				}
-				if least > 1 {
-					bad = fmt.Sprintf("len(buffer) >= %d", least)
-				}
+				c.R.Check(bad == "", "R06.17", "tokenizeStream: the test for a trailing hyphen stands behind `the word buffer is not empty` only", p.Pos(bo.Pos()), "no test of the buffer's length against a larger constant dominates it",
+					"the trailing-hyphen test is only made when "+bad+": a word that is split behind its first letter(s) is not joined with its remainder, so where a writer breaks a word changes the tokens")
 			}
-			c.R.Check(bad == "", "R06.17", "tokenizeStream: the test for a trailing hyphen stands behind `the word buffer is not empty` only", p.Pos(bo.Pos()), "no test of the buffer's length against a larger constant dominates it",
-				"the trailing-hyphen test is only made when "+bad+": a word that is split behind its first letter(s) is not joined with its remainder, so where a writer breaks a word changes the tokens")
 		}
 	}
 	c.R.RequireMin("R06.17", "tests of the last byte of the word buffer against a hyphen", n, 1)
@@ -1909,6 +1928,25 @@ func checkCRBeforeHyphenJoin(c *Ctx, p *core.Prog) {
 					for _, pair := range [][2]ssa.Value{{bo.X, bo.Y}, {bo.Y, bo.X}} {
 						if k, isK := core.ConstInt(pair[1]); isK && k == '\r' && pair[0] == rv {
 							return true
+						}
+					}
+				}
+				// a predicate of the package that is handed the rune and compares it with the carriage return itself
+				if call, ok := v.(*ssa.Call); ok {
+					if g := call.Call.StaticCallee(); g != nil && core.FuncPkgPath(g) == v2pkg && len(g.Blocks) > 0 {
+						for k, a := range call.Call.Args {
+							if a != rv || k >= len(g.Params) {
+								continue
+							}
+							for _, gb := range g.Blocks {
+								for _, gi := range gb.Instrs {
+									if bo, isBo := gi.(*ssa.BinOp); isBo && (bo.Op == token.EQL || bo.Op == token.NEQ) && bo.X == ssa.Value(g.Params[k]) {
+										if kk, isK := core.ConstInt(bo.Y); isK && kk == '\r' {
+											return true
+										}
+									}
+								}
+							}
 						}
 					}
 				}
@@ -4986,7 +5024,6 @@ func checkLineStringifier(c *Ctx, p *core.Prog) {
 	c.R.RequireMin("R06.15", "calls of the word clean-up in the line stringifier", nC, 1)
 }
 
-
 // checkNoCandidateCap: R01.9. Every copy in the input is a candidate of its own: the lists of candidates (match ranges,
 // matches) have no fixed capacity. An append that only happens while the list is shorter than a constant, or a list that
 // is re-sliced to a constant length, loses the candidates beyond it - the 33rd copy of a document, the licenses behind
@@ -5130,7 +5167,6 @@ func checkFirstPassAdmission(c *Ctx, p *core.Prog) {
 	}
 	c.R.RequireMin("R01.10", "admissions to the second pass in the loop over the corpus", n, 1)
 }
-
 
 // checkTokenTextProvenance: R06.5 (shared by C06 and C01).
 func checkTokenTextProvenance(c *Ctx, p *core.Prog) {
